@@ -315,14 +315,21 @@ def session_in_memory(mode, seed):
 def body(ctx, prefix='C18'):
     rng = random.Random(ctx.seed)
     g, paths = graph_paths(ctx)
-    if ctx.quick:
-        paths = paths[::2]
     traces, meta = [], []
-    for p in paths:
+    for pi, p in enumerate(paths):
         sc = script_of(p)
-        for mode, drv in (('sync', drive_sync), ('async', drive_async)):
+        for mi, (mode, drv) in enumerate((('sync', drive_sync), ('async', drive_async))):
+            if ctx.quick and (pi + mi) % 2:
+                continue          # quick: every path of the tour once, the two transports taking turns
             traces.append(drv(sc))
             meta.append(dict(kind='tour-script', mode=mode, script=sc))
+    # what the peer had sent and the host had not consumed when it closed must not turn up on the next connection
+    for mode, drv in (('sync', drive_sync), ('async', drive_async)):
+        for (sent, taken) in ((3, 1), (30, 24), (5000, 24), (2, 2)):
+            sc = [dict(op='connect'), dict(op='pw', m=sent), dict(op='read', n=taken), dict(op='close'), dict(op='connect'), dict(op='pw', m=4), dict(op='read', n=4096),
+                  dict(op='read', n=5), dict(op='close'), dict(op='close'), dict(op='connect'), dict(op='read', n=1, poll=True), dict(op='pw', m=1), dict(op='read', n=1, poll=True)]
+            traces.append(drv(sc))
+            meta.append(dict(kind='leftover bytes, then close and connect again', mode=mode, script=sc))
     for j in range(20 if ctx.quick else 300):
         sc = [dict(op='connect')]
         for _ in range(rng.randint(3, 12)):
